@@ -623,10 +623,11 @@ class FunctionParser(BaseParser):
                 field = self.positional_fields.get(i)
 
                 if field:
+                    # given by position: bound here, whatever becomes of the value (the keyword pass leaves it alone)
+                    parsed_keys.append(field.attname)
                     if field.is_no_input(arg, options=context.options):
                         arg = field.get_default(options=context.options)
                     else:
-                        parsed_keys.append(field.attname)
                         arg = field.parse_value(arg, context=context)
                     if unprovided(arg):
                         # on_error=excluded, or error collected
